@@ -16,6 +16,13 @@ use rtcp_types::*;
 
 /// Lock-step comparison of the real iterator with the two-variable model (tile index, done).
 fn c11_case(s: &[u8], l: &mut Local) {
+    c11_walk(s, l, false);
+    if s.len() <= 4096 {
+        c11_walk(s, l, true);
+    }
+}
+
+fn c11_walk(s: &[u8], l: &mut Local, perturbed: bool) {
     l.evals += 1;
     l.states += 1;
     l.sample(|| hex_short(s));
@@ -47,8 +54,17 @@ fn c11_case(s: &[u8], l: &mut Local) {
             // model state
             let mut i = 0usize;
             let mut done = false;
+            // the walk is done twice: plainly, and with the iterator formatted (`{:?}`) and asked for its size hint
+            // before every call - observations that must not disturb it
+            let perturb = perturbed;
             for step in 0..t.len() + 3 {
                 l.transitions += 1;
+                if perturb {
+                    let _ = guard::catch(|| {
+                        let _ = crate::engine::run::fp_debug(&c);
+                        let _ = c.size_hint();
+                    });
+                }
                 let got = match guard::catch(|| c.next()) {
                     Err(pi) => {
                         l.subject_panic("Compound::next", &pi, || format!("{} at call {}", hex_short(s), step));
@@ -101,7 +117,7 @@ fn c11_case(s: &[u8], l: &mut Local) {
 }
 
 use super::bytes::tile_menu;
-const KINDS: u64 = 12;
+const KINDS: u64 = 15;
 
 const TAILS: u64 = 15;
 
@@ -136,9 +152,9 @@ fn apply_tail(v: &mut Vec<u8>, last_start: Option<usize>, tail: u64) {
 }
 
 pub fn c11(ctx: &mut Ctx) {
-    ctx.rule = "(a) all tile sequences of length 0..=d from a 12-kind menu (5 well-formed kinds incl. a padded packet, 7 kinds whose parse fails) x 15 tail variants (truncations, junk, last length field +-1, bare over-long header ...), plus sequences with a 262144-byte tile; (b) all byte strings of length 0..=12 (thorough: 16) whose length-field bytes range over {00,FF}x{00,01,02,03,FF} and whose other bytes over {00,80,81,C9,CB} (first byte of each header slot: also A0); on each: Compound::parse is Ok iff the reference tiling is exact, and tiles+3 calls of next() are compared in lock-step with the model (tile index, done) whose items are Packet::parse of each tile; non-trivial = non-empty input whose first length field is in range, distinct by fingerprint".into();
+    ctx.rule = "(a) all tile sequences of length 0..=d from a 15-kind menu (5 well-formed kinds incl. a padded packet, 10 kinds whose parse fails, three of them with SDES item-level errors) x 15 tail variants (truncations, junk, last length field +-1, bare over-long header ...), plus sequences with a 262144-byte tile; (b) all byte strings of length 0..=12 (thorough: 16) whose length-field bytes range over {00,FF}x{00,01,02,03,FF} and whose other bytes over {00,80,81,C9,CB} (first byte of each header slot: also A0); on each: Compound::parse is Ok iff the reference tiling is exact, and tiles+3 calls of next() are compared in lock-step with the model (tile index, done) whose items are Packet::parse of each tile; non-trivial = non-empty input whose first length field is in range, distinct by fingerprint".into();
     let depth = ctx.tier.pick(4u32, 5u32);
-    ctx.bound("(a) tile sequences", format!("length 0..={} over 12 kinds x 15 tails", depth));
+    ctx.bound("(a) tile sequences", format!("length 0..={} over 15 kinds x 15 tails", depth));
     ctx.bound("(b) strings", ctx.tier.pick("every length 0..=12", "every length 0..=12 fully, 13..=16 with the 4th header slot restricted"));
     let menu = tile_menu();
     assert_eq!(menu.len() as u64, KINDS);
